@@ -82,6 +82,74 @@ theorem tensorQuantParams_data (env : Env) (oi : OpInfo) (mm : Qsv) (tc : TCfg) 
     repeat' split at h
     all_goals (cases h <;> simp [hasData] at hd)
 
+theorem tensorQuantParams_uniform (env : Env) (oi : OpInfo) (mm : Qsv) (tc : TCfg) (content : Option (Nd.Arr Rat))
+    (p : Param) (h : tensorQuantParams env oi mm tc content = .ok p) : ∃ qp d, p = .uniform qp d := by
+  unfold tensorQuantParams at h
+  simp only [bind, Except.bind, pure, Except.pure, throw, throwThe, MonadExceptOf.throw] at h
+  repeat' split at h
+  all_goals (cases h <;> exact ⟨_, _, rfl⟩)
+
+/-- without given parameters, the parameter object of a request made by `wrapper` is uniform
+    (computed by `tensorQuantParams`) or absent -/
+theorem wrapper_none_uniform (env : Env) (qs : Qsvs) (oi : OpInfo) (t : Tensor) (inbound : Bool)
+    (r : CReq) (h : wrapper env qs oi t inbound none = .ok r) :
+    (∀ pr q, r.producer = some pr → pr.param = some q → ∃ qp d, q = .uniform qp d) ∧
+    (∀ cs c q, r.consumers = some cs → c ∈ cs → c.param = some q → ∃ qp d, q = .uniform qp d) := by
+  have key : ∃ p, mkReq t.name oi inbound p (constData env t).isSome = .ok r ∧
+      (∀ q, p = some q → ∃ qp d, q = .uniform qp d) := by
+    generalize hg : (none : Option Param) = g at h
+    unfold wrapper at h
+    simp only [] at h
+    split at h
+    · rename_i tc _
+      have fin : ∀ mm, ((tensorQuantParams env oi mm tc (constData env t) >>= fun r => pure (some r)) >>=
+          fun p => mkReq t.name oi inbound p (constData env t).isSome) = .ok r →
+          ∃ p, mkReq t.name oi inbound p (constData env t).isSome = .ok r ∧
+            (∀ q, p = some q → ∃ qp d, q = .uniform qp d) := by
+        intro mm h
+        obtain ⟨p, hp, h⟩ := bind_ok _ _ _ h
+        obtain ⟨q', hq', hp⟩ := bind_ok _ _ _ hp
+        simp only [pure, Except.pure, Except.ok.injEq] at hp
+        subst hp
+        refine ⟨_, h, ?_⟩
+        intro q hq
+        cases hq
+        exact tensorQuantParams_uniform _ _ _ _ _ _ hq'
+      split at h
+      · split at h
+        · obtain ⟨mm, _, h⟩ := bind_ok _ _ _ h
+          exact fin _ h
+        · obtain ⟨mm, hmm, h⟩ := bind_ok _ _ _ h
+          cases hmm
+      · obtain ⟨mm, _, h⟩ := bind_ok _ _ _ h
+        exact fin _ h
+    · cases hg
+    · obtain ⟨p, hp, h⟩ := bind_ok _ _ _ h
+      simp only [pure, Except.pure, Except.ok.injEq] at hp
+      subst hp
+      subst hg
+      exact ⟨_, h, fun q hq => by cases hq⟩
+  obtain ⟨p, h, hu⟩ := key
+  obtain ⟨xfs, hx, hr⟩ := mkReq_spec _ _ _ _ _ _ h
+  subst hr
+  cases inbound
+  · refine ⟨?_, ?_⟩
+    · intro pr q h1 h2
+      simp only [Bool.false_eq_true, if_false, Option.some.injEq] at h1
+      subst h1
+      exact hu q h2
+    · intro cs c q h1
+      simp at h1
+  · refine ⟨?_, ?_⟩
+    · intro pr q h1
+      simp at h1
+    · intro cs c q h1 h2 h3
+      simp only [if_true, Option.some.injEq] at h1
+      subst h1
+      rw [List.mem_singleton] at h2
+      subst h2
+      exact hu q h3
+
 /-- **a request made by `wrapper`** -/
 theorem wrapper_spec (env : Env) (qs : Qsvs) (oi : OpInfo) (t : Tensor) (inbound : Bool) (g : Option Param)
     (r : CReq) (h : wrapper env qs oi t inbound g = .ok r)
